@@ -1,13 +1,26 @@
 """C13 - expiry rules decide precisely which tiles are refreshed.
 
 spec/Expiry.tla models TileManager.load_tile_coords under a refresh rule (absolute time, relative age evaluated
-per request, mtime of a file), the same rule applied by a seed task, the clock, the threshold file and an
-upstream that can fail; time is counted in half seconds so that the truncation to whole seconds is visible.
-TLC checks the five action properties for all histories of length <= 6 over two tiles for the single-tile and
-the meta-tile creation path.  TLC behaviours are replayed on the real TileManager / seed_task with real caches
-under a virtual clock (spec -> code: cache timestamps and versions, upstream log and served versions compared
-after every action) and long random histories recorded from the real code are validated by TLC against
-spec/trace/Trace_Expiry.tla with the properties evaluated on every recorded step (code -> spec).
+per request, mtime of a file), the same rule applied by a seed task, the clock, the threshold file, tile removal
+and an upstream that can fail; time is counted in half seconds so that the truncation to whole seconds is
+visible.  TLC checks the action properties for ALL histories of <= 6 actions over two tiles for the single-tile
+and the meta-tile creation path (`steps` is a state variable: the bound is exact).
+
+spec -> code: (1) a class cover - the state graph of all histories of <= 4 actions is dumped, one shortest
+behaviour per class of transition (outcome, rule kinds, fractional threshold, per-tile distance of the tile's
+second from the threshold second) is executed; (2) random walks (-simulate) of a larger instance.  Both run on the
+real TileManager / seed_task with real caches (file layouts, sqlite per level, mbtiles with timestamps) under a
+virtual clock, built directly as loader.py does AND through ProxyConfiguration / SeedingConfiguration from
+configuration dictionaries; cache timestamps and versions (read back through a fresh cache object), the upstream
+log and the served versions are compared with the TLC state after every action.
+
+code -> spec: long random histories (4 tiles, two meta tiles, clock jumps up to an hour, ages up to an hour) are
+recorded from the real code and validated by TLC against spec/trace/Trace_Expiry.tla with the properties
+evaluated on every recorded step.
+
+The original TileManager.expire_timestamp lets the cache's own refresh_before replace the threshold of a seed
+task; Expiry.tla has both variants (ExpirePrecedence); TLC's counterexample for the original logic is executed on
+the real code to tell which variant the tree implements, the original one is reported as a violation.
 """
 import datetime as _datetime
 import io
